@@ -1,6 +1,6 @@
 /* Positional accessors, typed getters, lock toggles (C11 C13 C09). */
 #include "vf_harness.h"
-size_t vf_gk, vf_gj, vf_gc;
+VF_GHOSTS
 
 #define VEC_OK(v, T) VF_VEC_OK(v, T)
 
